@@ -6,13 +6,16 @@ PLAN = dict(
           "reproducible), then the serializer runs against a destination of capacity k for EVERY k in [0, len(O)] x fault mode {reject: the write that "
           "does not fit returns (0, err) and the destination keeps failing; short: it accepts the remaining capacity and returns (n, err); "
           "reject-transient: as reject but later writes that fit are still accepted (disk-full semantics)} x {Write-only destination, destination "
-          "implementing io.ReaderFrom under the same capacity rule}. Oracle: k < len(O) => non-nil error; accepted bytes are a prefix of O; bundle "
+          "implementing io.ReaderFrom under the same capacity rule}. Artifacts above 64 KiB (quick: CBOR byte string, cert chain with an 80000-byte OCSP "
+          "response, exchange, MI stream, bundle; thorough also above 1 MiB), whose large value comes LAST in the output, are too costly for every k "
+          "(quadratic): there k runs over the first and last 300 positions, +-2 around every multiple of 4 KiB and every power of two (from both ends) "
+          "and a stride of 997 (class artifact>64KiB-sampled-positions). Oracle: k < len(O) => non-nil error; accepted bytes are a prefix of O; bundle "
           "WriteTo count == accepted bytes; k == len(O) (control) => success, accepted == O, count == len(O). evaluations = sum of fault positions x modes "
           "x destinations; non-trivial: k < len(O) (a real fault), distinct by (artifact, k, mode, destination) by construction of the enumeration."),
     assumptions=TRUSTED + ["a zero-length Write always succeeds on the faulty destination (it never exceeds the remaining capacity)",
                            "certificate fixtures are created per process: artifacts containing certificates have process-specific bytes (O is recomputed in every process)"],
     technique="exhaustive fault injection at every output byte position with three fault modes and two destination kinds, differential against the fault-free output",
-    level_text=("Every failure position of every explored artifact is enumerated (no sampling over k), for every fault mode and both destination kinds; "
+    level_text=("Every failure position of every explored artifact up to 64 KiB is enumerated (no sampling over k; for the few larger artifacts a fixed dense sample of positions), for every fault mode and both destination kinds; "
                 "the artifacts are a finite sample of each serializer's inputs (fixed edge shapes + rapid-generated specs). A dropped error check is "
                 "visible when a fault position falls into the unchecked write and either nothing non-empty is written afterwards (success on partial "
                 "output) or a later smaller write still fits (reject-transient: accepted bytes are no longer a prefix)."),
@@ -24,7 +27,7 @@ PLAN = dict(
         dict(name="enc", run="^(TestFaultEncoders|TestCorpus)$", timeout=(300, 900), shards=(1, 8)),
         dict(name="big", run="^TestFaultBig$", timeout=(300, 900), shards=(1, 8)),
     ],
-    require=[("fault", "ser:bundle"), ("fault", "bundle:b1"), ("fault", "bundle:b2"),
+    require=[("fault", "artifact>64KiB-sampled-positions"), ("fault", "ser:bundle"), ("fault", "bundle:b1"), ("fault", "bundle:b2"),
              ("fault", "ser:sxg-write"), ("fault", "sxg-write:1b1"), ("fault", "sxg-write:1b2"), ("fault", "sxg-write:1b3"),
              ("fault", "ser:sxg-headers"), ("fault", "ser:sxg-signedmsg"), ("fault", "ser:certchain"), ("fault", "certchain:1"), ("fault", "certchain:3"),
              ("fault", "ser:mice"), ("fault", "mice:draft02"), ("fault", "mice:draft03"), ("fault", "ser:cbor"),
